@@ -1,12 +1,697 @@
-// Package c09 checks property C09 (not built yet).
+// Package c09 checks property C09: integer literals keep their exact value
+// through print and parse, and every accepted notation denotes the
+// mathematically correct value for the type width.
+//
+// (S)+(G): spec/LiteralsInt.tla enumerates (width, value, notation) -- all
+// values of i1..i8 (thorough: ..i10) in every notation, boundary values of wide
+// types, two-digit hexadecimal patterns -- checks the reference denotation
+// Literals!IntDenote on each and emits one vector per case; every vector is fed
+// to constant.NewIntFromString and to asm.ParseString("@g = global iW LIT"), the
+// parsed constant is printed (Int.Ident and Module.String) and the printed
+// literal parsed again.
+// (T): seeded random (width, value) pairs up to i4096 are run through the same
+// pipeline; every observed fact (parser read LIT as X; printer spelled X as LIT)
+// is a row judged by TLC with spec/LiteralsIntTrace.tla.
 package c09
 
 import (
+	"encoding/json"
+	"fmt"
+	"math/big"
+	"math/rand"
+	"regexp"
+	"strconv"
+	"strings"
+	"time"
+
+	"github.com/llir/llvm/asm"
+	"github.com/llir/llvm/ir"
+	"github.com/llir/llvm/ir/constant"
+	"github.com/llir/llvm/ir/types"
+
 	"verif/harness/mbt"
 	"verif/harness/props/reg"
 )
 
 func init() { reg.Register("C09", Run) }
 
+// maxDecDigits is the longest decimal literal TLC converts itself (cfg constant MaxDecDigits).
+const maxDecDigits = 320
+
+// vector is one line emitted by LiteralsInt.tla.
+type vector struct {
+	W   int    `json:"w"`
+	Tag string `json:"tag"`
+	Lit []int  `json:"lit"`
+	Neg bool   `json:"neg"`
+	Mag []int  `json:"mag"`
+	Pat []int  `json:"pat"`
+}
+
+// row is one observed fact handed to LiteralsIntTrace.tla.
+type row struct {
+	K    string `json:"k"` // "parse" or "print"
+	W    int    `json:"w"`
+	Lit  []int  `json:"lit"`
+	Neg  bool   `json:"neg"`
+	Mag  []int  `json:"mag"`
+	Site string `json:"site"`
+	X    string `json:"x"` // the integer in hexadecimal (for messages and replay)
+}
+
+func bytesOf(s string) []int {
+	out := make([]int, len(s))
+	for i := 0; i < len(s); i++ {
+		out[i] = int(s[i])
+	}
+	return out
+}
+
+func strOf(bs []int) string {
+	b := make([]byte, len(bs))
+	for i, v := range bs {
+		b[i] = byte(v)
+	}
+	return string(b)
+}
+
+// limbs transports |x| as 16-bit limbs, least significant first, no high zero limbs.
+func limbs(x *big.Int) []int {
+	b := new(big.Int).Abs(x).Bytes() // big endian
+	out := []int{}
+	for i := len(b); i > 0; i -= 2 {
+		v := int(b[i-1])
+		if i >= 2 {
+			v |= int(b[i-2]) << 8
+		}
+		out = append(out, v)
+	}
+	for len(out) > 0 && out[len(out)-1] == 0 {
+		out = out[:len(out)-1]
+	}
+	return out
+}
+
+func fromLimbs(neg bool, mag []int) *big.Int {
+	x := new(big.Int)
+	for i := len(mag) - 1; i >= 0; i-- {
+		x.Lsh(x, 16)
+		x.Or(x, big.NewInt(int64(mag[i])))
+	}
+	if neg {
+		x.Neg(x)
+	}
+	return x
+}
+
+// samePattern reports a = b modulo 2^w (transport-level arithmetic; TLC judges the same rows independently).
+func samePattern(w int, a, b *big.Int) bool {
+	m := new(big.Int).Lsh(big.NewInt(1), uint(w))
+	d := new(big.Int).Sub(a, b)
+	return d.Mod(d, m).Sign() == 0
+}
+
+func inRange(w int, x *big.Int) bool {
+	lo := new(big.Int).Neg(new(big.Int).Lsh(big.NewInt(1), uint(w-1)))
+	hi := new(big.Int).Lsh(big.NewInt(1), uint(w))
+	return x.Cmp(lo) >= 0 && x.Cmp(hi) < 0
+}
+
+// notation classifies a literal for signatures.
+func notation(lit string) string {
+	switch {
+	case lit == "true" || lit == "false":
+		return "bool"
+	case strings.HasPrefix(lit, "u0x"):
+		return "u0x"
+	case strings.HasPrefix(lit, "s0x"):
+		return "s0x"
+	case strings.HasPrefix(lit, "-"):
+		return "dec-negative"
+	default:
+		return "dec"
+	}
+}
+
+func widthClass(w int) string {
+	if w == 1 {
+		return "i1"
+	}
+	return "iN"
+}
+
+func valueClass(w int, x *big.Int) string {
+	if w == 1 {
+		return "X=" + x.String()
+	}
+	if x.Sign() < 0 {
+		return "X<0"
+	}
+	return "X>=0"
+}
+
+type checker struct {
+	rep            *mbt.Report
+	rows           []row
+	seenRow        map[string]bool
+	printed        map[string]int // notation chosen by the printer -> count
+	parseErr       int
+	choiceExamples []string
+}
+
+func (c *checker) addRow(r row) {
+	key := fmt.Sprintf("%s|%d|%s|%s", r.K, r.W, strOf(r.Lit), r.X)
+	if c.seenRow[key] {
+		return
+	}
+	c.seenRow[key] = true
+	c.rows = append(c.rows, r)
+}
+
+// parseBoth reads lit at width w with both entry points of the real parser.
+// The result is nil if the literal was not accepted.
+func (c *checker) parseBoth(w int, lit string, origin string) *big.Int {
+	kase := map[string]interface{}{"kind": "parse", "w": w, "lit": lit, "origin": origin}
+	sigBase := "C09|parse|" + notation(lit) + "|" + widthClass(w) + "|"
+	var x1 *big.Int
+	var err1 error
+	typ := types.NewInt(uint64(w))
+	if msg, p := mbt.Guard(func() {
+		var k *constant.Int
+		k, err1 = constant.NewIntFromString(typ, lit)
+		if err1 == nil {
+			x1 = k.X
+		}
+	}); p {
+		c.rep.Fail(mbt.Failure{Signature: sigBase + "panic", What: fmt.Sprintf("constant.NewIntFromString(i%d, %q) panics: %s", w, lit, msg), Case: kase})
+		return nil
+	}
+	if err1 != nil {
+		c.rep.Fail(mbt.Failure{Signature: sigBase + "rejected", What: fmt.Sprintf("constant.NewIntFromString(i%d, %q) rejects a literal of the grammar inside the representable range: %v", w, mbt.Truncate(lit, 80), err1), Case: kase})
+		return nil
+	}
+	var x2 *big.Int
+	src := fmt.Sprintf("@g = global i%d %s\n", w, lit)
+	var err2 error
+	if msg, p := mbt.Guard(func() {
+		m, e := asm.ParseString("c09.ll", src)
+		err2 = e
+		if e == nil {
+			if len(m.Globals) == 1 {
+				if k, ok := m.Globals[0].Init.(*constant.Int); ok {
+					x2 = k.X
+				}
+			}
+		}
+	}); p {
+		c.rep.Fail(mbt.Failure{Signature: sigBase + "asm-panic", What: fmt.Sprintf("asm.ParseString(%q) panics: %s", mbt.Truncate(src, 100), msg), Case: kase})
+	} else if err2 != nil || x2 == nil {
+		c.rep.Fail(mbt.Failure{Signature: sigBase + "asm-rejected", What: fmt.Sprintf("asm.ParseString(%q) fails: %v", mbt.Truncate(src, 100), err2), Case: kase})
+	}
+	c.addRow(row{K: "parse", W: w, Lit: bytesOf(lit), Neg: x1.Sign() < 0, Mag: limbs(x1), Site: "constant.NewIntFromString", X: x1.Text(16)})
+	if x2 != nil && x2.Cmp(x1) != 0 {
+		c.addRow(row{K: "parse", W: w, Lit: bytesOf(lit), Neg: x2.Sign() < 0, Mag: limbs(x2), Site: "asm.ParseString", X: x2.Text(16)})
+	}
+	return x1
+}
+
+// printBoth spells the constant x of type iw with Int.Ident and through Module.String.
+func (c *checker) printBoth(w int, x *big.Int, origin string) (string, bool) {
+	kase := map[string]interface{}{"kind": "print", "w": w, "x": x.Text(16), "origin": origin}
+	typ := types.NewInt(uint64(w))
+	k := &constant.Int{Typ: typ, X: x}
+	var ident string
+	if msg, p := mbt.Guard(func() { ident = k.Ident() }); p {
+		c.rep.Fail(mbt.Failure{Signature: "C09|Int.Ident|panic|" + widthClass(w) + "|" + valueClass(w, x),
+			What: fmt.Sprintf("printing the representable constant i%d %s panics: %s", w, x.String(), msg), Case: kase})
+		return "", false
+	}
+	c.addRow(row{K: "print", W: w, Lit: bytesOf(ident), Neg: x.Sign() < 0, Mag: limbs(x), Site: "Int.Ident", X: x.Text(16)})
+	c.printed[notation(ident)]++
+	// the same constant through the module printer
+	var text string
+	if msg, p := mbt.Guard(func() {
+		m := ir.NewModule()
+		m.NewGlobalDef("g", k)
+		text = m.String()
+	}); p {
+		c.rep.Fail(mbt.Failure{Signature: "C09|Module.String|panic|" + widthClass(w) + "|" + valueClass(w, x),
+			What: fmt.Sprintf("printing a module with the constant i%d %s panics: %s", w, x.String(), msg), Case: kase})
+		return ident, true
+	}
+	pre := fmt.Sprintf("@g = global i%d ", w)
+	if i := strings.Index(text, pre); i >= 0 {
+		lit := text[i+len(pre):]
+		if j := strings.IndexAny(lit, " ,\n"); j >= 0 {
+			lit = lit[:j]
+		}
+		if lit != ident {
+			c.addRow(row{K: "print", W: w, Lit: bytesOf(lit), Neg: x.Sign() < 0, Mag: limbs(x), Site: "Module.String", X: x.Text(16)})
+		}
+	} else {
+		mbt.Infra("cannot find the global in the printed module %q", mbt.Truncate(text, 200))
+	}
+	return ident, true
+}
+
+// cycle runs one input literal through parse, print and parse again.
+func (c *checker) cycle(w int, lit string, origin string) (x *big.Int, printed string, ok bool) {
+	x = c.parseBoth(w, lit, origin)
+	if x == nil {
+		c.parseErr++
+		return nil, "", false
+	}
+	return c.roundTrip(w, x, origin)
+}
+
+// roundTrip prints x and parses the printed literal again.
+func (c *checker) roundTrip(w int, x *big.Int, origin string) (*big.Int, string, bool) {
+	if !inRange(w, x) {
+		// reported by the parse row (law in-range); nothing to print inside the quantifier
+		return x, "", false
+	}
+	printed, ok := c.printBoth(w, x, origin)
+	if !ok {
+		return x, "", false
+	}
+	x2 := c.parseBoth(w, printed, origin+"/printed")
+	if x2 == nil {
+		return x, printed, false
+	}
+	if !samePattern(w, x, x2) {
+		c.rep.Fail(mbt.Failure{Signature: "C09|roundtrip|" + notation(printed) + "|" + widthClass(w) + "|" + valueClass(w, x) + "|value changed",
+			What: fmt.Sprintf("i%d %s is printed as %q, which parses back as %s", w, x.String(), mbt.Truncate(printed, 80), x2.String()),
+			Case: map[string]interface{}{"kind": "print", "w": w, "x": x.Text(16), "origin": origin}})
+		return x, printed, false
+	}
+	return x, printed, true
+}
+
+var reRow = regexp.MustCompile(`<<"(BADROW|INFOROW)", "([^"]+)", (\d+)>>`)
+
+// judge lets TLC evaluate the laws of LiteralsIntTrace.tla on all recorded rows.
+func (c *checker) judge(label string) {
+	if len(c.rows) == 0 {
+		return
+	}
+	chunks := 64
+	if len(c.rows) < chunks {
+		chunks = len(c.rows)
+	}
+	t := mbt.MustTLC(mbt.TLCOpts{Spec: "LiteralsIntTrace", Cfg: "LiteralsIntTrace.cfg", Workers: 8, Continue: true,
+		Consts: map[string]string{"Chunks": strconv.Itoa(chunks), "MaxDecDigits": strconv.Itoa(maxDecDigits)},
+		Data:   map[string][]byte{"c09_rec.ndjson": mbt.NDJSONBytes(c.rows)}, Timeout: 25 * time.Minute})
+	defer t.Cleanup()
+	c.rep.AddTLC(t)
+	c.rep.Extra["wall_s_tlc_trace_"+label] = t.Wall.Seconds()
+	if t.Distinct != int64(chunks)+1 {
+		mbt.Infra("LiteralsIntTrace (%s) visited %d of %d row groups:\n%s", label, t.Distinct-1, chunks, tail(t.Output))
+	}
+	for _, v := range t.Violated {
+		if v != "RowsOK" {
+			mbt.Infra("LiteralsIntTrace: unexpected violation %s", v)
+		}
+	}
+	skipped, exact, choice, bad := 0, 0, 0, 0
+	for _, m := range reRow.FindAllStringSubmatch(t.Output, -1) {
+		i, _ := strconv.Atoi(m[3])
+		r := c.rows[i-1]
+		lit := strOf(r.Lit)
+		if m[1] == "INFOROW" {
+			switch m[2] {
+			case "skipped":
+				skipped++
+			case "parse-exact":
+				exact++
+			case "print-choice":
+				choice++
+				if choice <= 3 {
+					c.choiceExamples = append(c.choiceExamples, fmt.Sprintf("i%d %s printed as %s", r.W, fromLimbs(r.Neg, r.Mag).String(), mbt.Truncate(lit, 40)))
+				}
+			}
+			continue
+		}
+		bad++
+		x := fromLimbs(r.Neg, r.Mag)
+		kase := map[string]interface{}{"kind": r.K, "w": r.W, "lit": lit, "x": r.X}
+		if m[2] == "literal-outside-quantifier" {
+			// the generator left the representable range: never a verdict about the code
+			mbt.Infra("LiteralsIntTrace: generated literal i%d %s is outside the property's quantifier", r.W, mbt.Truncate(lit, 80))
+		}
+		if r.K == "parse" {
+			c.rep.Fail(mbt.Failure{Signature: "C09|parse|" + notation(lit) + "|" + widthClass(r.W) + "|" + m[2],
+				What: fmt.Sprintf("%s read i%d %s as %s; TLC (Literals!IntDenote): law %s fails", r.Site, r.W, mbt.Truncate(lit, 80), x.String(), m[2]), Case: kase})
+		} else {
+			c.rep.Fail(mbt.Failure{Signature: "C09|print|" + notation(lit) + "|" + widthClass(r.W) + "|" + valueClass(r.W, x) + "|" + m[2],
+				What: fmt.Sprintf("%s spelled i%d %s as %q; TLC (Literals!IntDenote): law %s fails", r.Site, r.W, x.String(), mbt.Truncate(lit, 80), m[2]), Case: kase})
+		}
+	}
+	if len(t.Violated) > 0 && bad == 0 {
+		mbt.Infra("LiteralsIntTrace: RowsOK violated but no BADROW line:\n%s", tail(t.Output))
+	}
+	c.rep.TracesValidated += len(c.rows) - skipped
+	add := func(k string, n int) {
+		old, _ := c.rep.Extra[k].(int)
+		c.rep.Extra[k] = old + n
+	}
+	add("rows_judged_by_tlc", len(c.rows)-skipped)
+	add("rows_with_decimal_too_long_for_tlc", skipped)
+	add("rows_value_equal_only_modulo_2^w", exact)
+	add("print_choice_differs_from_model", choice)
+	c.rows = nil
+}
+
+func tail(s string) string {
+	if len(s) > 2500 {
+		return s[len(s)-2500:]
+	}
+	return s
+}
+
+func newChecker(rep *mbt.Report) *checker {
+	return &checker{rep: rep, seenRow: map[string]bool{}, printed: map[string]int{}}
+}
+
+// readVectors extracts the vectors TLC printed (PrintT of a JSON document: a quoted TLA+ string per line).
+func readVectors(out string) []vector {
+	var vs []vector
+	for _, l := range strings.Split(out, "\n") {
+		if !strings.HasPrefix(l, `"{`) {
+			continue
+		}
+		var s string
+		if err := json.Unmarshal([]byte(l), &s); err != nil {
+			mbt.Infra("vector line %q: %v", mbt.Truncate(l, 120), err)
+		}
+		var v vector
+		if err := json.Unmarshal([]byte(s), &v); err != nil {
+			mbt.Infra("vector %q: %v", mbt.Truncate(s, 120), err)
+		}
+		vs = append(vs, v)
+	}
+	return vs
+}
+
 // Run is the C09 check.
-func Run(tier, replay string) { mbt.Infra("check C09 is not built yet") }
+func Run(tier, replay string) {
+	rep := mbt.NewReport("C09", tier, "model_checking")
+	rep.Rule = "distinct (width, literal) pairs fed to the real parser with the value required by Literals!IntDenote, plus distinct (width, value) constants printed and parsed back; every observed fact judged by TLC"
+	c := newChecker(rep)
+	if replay != "" {
+		runReplay(c, replay)
+		rep.Finish()
+	}
+	rng := rand.New(rand.NewSource(mbt.Seed()))
+
+	// (S) the as-implemented printer model must show the counterexample, the required one must not.
+	t := mbt.MustTLC(mbt.TLCOpts{Spec: "LiteralsInt", Cfg: "LiteralsIntAsImpl.cfg", Workers: 2, Continue: true})
+	if len(t.Violated) != 1 || t.Violated[0] != "PrintParse" {
+		mbt.Infra("LiteralsIntAsImpl.cfg: expected exactly PrintParse to be violated (i1 -1), got %v", t.Violated)
+	}
+	t.Cleanup()
+
+	// (S)+(G) enumeration and vectors.
+	consts := map[string]string{}
+	if tier == "thorough" {
+		consts["SmallWidths"] = "{1, 2, 3, 4, 5, 6, 7, 8, 9, 10}"
+		consts["BigWidths"] = "{15, 16, 17, 31, 32, 33, 63, 64, 65, 127, 128, 129, 256, 1023, 1024, 2048}"
+		consts["Exps"] = "{0, 1, 2, 3, 4, 5, 6, 7, 8, 11, 12, 13, 14, 15, 16, 17, 30, 31, 32, 33, 47, 48, 62, 63, 64, 65, 66, 126, 127, 128, 129, 255, 256, 511, 512, 1000, 1022, 1023, 2000}"
+		consts["HexA"] = "{1, 2, 7, 8, 9, 10, 15}"
+		consts["HexB"] = "{0, 1, 7, 8, 9, 12, 15}"
+	}
+	t = mbt.MustTLC(mbt.TLCOpts{Spec: "LiteralsInt", Cfg: "LiteralsInt.cfg", Consts: consts, Workers: 8, Timeout: 25 * time.Minute})
+	if len(t.Violated) > 0 {
+		mbt.Infra("reference semantics of Literals.tla violates %v: specification error\n%s", t.Violated, tail(t.Output))
+	}
+	rep.AddTLC(t)
+	rep.Extra["wall_s_tlc_generate"] = t.Wall.Seconds()
+	vectors := readVectors(t.Output)
+	t.Cleanup()
+	if len(vectors) == 0 {
+		mbt.Infra("LiteralsInt emitted no vectors")
+	}
+	rep.Extra["vectors_from_tlc"] = len(vectors)
+
+	seen := map[string]bool{}
+	perTag := map[string]int{}
+	for _, v := range vectors {
+		lit := strOf(v.Lit)
+		key := fmt.Sprintf("%d|%s", v.W, lit)
+		if seen[key] {
+			continue
+		}
+		seen[key] = true
+		perTag[v.Tag]++
+		rep.Count("parse:"+key, true)
+		want := fromLimbs(v.Neg, v.Mag)
+		got, printed, _ := c.cycle(v.W, lit, "vector/"+v.Tag)
+		if got == nil {
+			continue
+		}
+		// the outcome the spec requires: the pattern at width w (and the integer itself)
+		if !inRange(v.W, got) || !samePattern(v.W, got, want) || !samePattern(v.W, got, fromLimbs(false, v.Pat)) {
+			rep.Fail(mbt.Failure{Signature: "C09|parse|" + notation(lit) + "|" + widthClass(v.W) + "|parse-value",
+				What: fmt.Sprintf("i%d %s must denote %s (vector of LiteralsInt.tla, notation %s); the parser read %s", v.W, mbt.Truncate(lit, 80), want.String(), v.Tag, got.String()),
+				Case: map[string]interface{}{"kind": "parse", "w": v.W, "lit": lit, "origin": "vector/" + v.Tag}})
+		}
+		if len(rep.Samples) < 4 && (v.W == 8 && v.Tag == "s0x-short" && lit == "s0x7F" || v.W == 8 && lit == "s0xFF" || v.W == 65 && v.Neg && v.Tag == "s0x" && len(v.Mag) == 5 || v.W == 64 && lit == "u0x8000000000000000") {
+			rep.Sample(map[string]interface{}{"kind": "vector", "w": v.W, "lit": lit, "required": want.String(), "parsed": got.String(), "printed": printed})
+		}
+	}
+	rep.Extra["vectors_by_notation"] = perTag
+	c.judge("vectors")
+
+	// (T) seeded random (width, value) pairs up to i4096.
+	n := 2500
+	if tier == "thorough" {
+		n = 8000
+	}
+	wide := 0
+	for i := 0; i < n; i++ {
+		w, lit := randomLiteral(rng)
+		key := fmt.Sprintf("%d|%s", w, lit)
+		rep.Count("parse:"+key, !seen[key])
+		seen[key] = true
+		x, printed, ok := c.cycle(w, lit, "random")
+		if x == nil {
+			continue
+		}
+		if i < 2 {
+			rep.Sample(map[string]interface{}{"kind": "random", "w": w, "lit": mbt.Truncate(lit, 70), "parsed": mbt.Truncate(x.String(), 70), "printed": mbt.Truncate(printed, 70), "roundtrip": ok})
+		}
+		// decimal spellings too long for TLC's conversion: consistency with the hexadecimal spelling,
+		// whose reading TLC judges digit-wise
+		for _, l := range []string{lit, printed} {
+			if notation(l) == "dec" || notation(l) == "dec-negative" {
+				if len(l) > maxDecDigits {
+					wide++
+					c.consistency(w, l)
+				}
+			}
+		}
+	}
+	rep.Extra["wide_decimals_checked_by_hex_consistency"] = wide
+	c.judge("random")
+
+	rep.Extra["printer_notation_counts"] = c.printed
+	if len(c.choiceExamples) > 0 {
+		rep.Note("the printer's decimal/hexadecimal choice differs from the exact-rational model of its heuristic (float64 ties; never part of a verdict), e.g. %s", strings.Join(c.choiceExamples, "; "))
+	}
+	if c.printed["u0x"] == 0 || c.printed["dec"] == 0 {
+		rep.Note("the printer used only one notation on this run's values (%v): the other branch of its heuristic was not exercised", c.printed)
+	}
+	rep.Exhaustive = false
+	rep.Explanation = "exhaustive for the small widths listed in the cfg (every value in every notation); boundary, pattern and random values for wide types"
+	rep.Assumptions = []string{
+		"TLC evaluates Literals!IntDenote correctly (positional arithmetic on 16-bit limbs, cross-checked against TLC's native integers for widths <= 14 and by DecRoundTrip/HexRoundTrip on every enumerated value)",
+		"math/big is used only to transport magnitudes (bytes of |X|) and for the residue comparison of the Go-side vector check; TLC judges the same rows independently",
+		fmt.Sprintf("decimal literals longer than %d digits are not converted by TLC; they are checked by Parse(w, dec) = Parse(w, u0x) on the real code with the hexadecimal side judged by TLC, the decimal text coming from math/big", maxDecDigits),
+		"s0x is judged by the property's definition (two's complement at the type width), not by LLVM 14's reading",
+	}
+	rep.Finish()
+}
+
+// consistency checks a long decimal literal against the u0x spelling of the same magnitude.
+func (c *checker) consistency(w int, dec string) {
+	neg := strings.HasPrefix(dec, "-")
+	xd := c.parseBoth(w, dec, "consistency/dec")
+	if xd == nil {
+		return
+	}
+	hexLit := "u0x" + strings.ToUpper(new(big.Int).Abs(xd).Text(16))
+	// a representable magnitude is at most 2^w - 1, so the u0x literal is a literal of iw as well
+	xh := c.parseBoth(w, hexLit, "consistency/u0x")
+	if xh == nil {
+		return
+	}
+	if neg {
+		xh = new(big.Int).Neg(xh)
+	}
+	if xh.Cmp(xd) != 0 {
+		c.rep.Fail(mbt.Failure{Signature: "C09|parse|" + notation(dec) + "|" + widthClass(w) + "|dec-vs-u0x-consistency",
+			What: fmt.Sprintf("i%d: the decimal literal %s and %s are read as different values", w, mbt.Truncate(dec, 60), mbt.Truncate(hexLit, 60)),
+			Case: map[string]interface{}{"kind": "parse", "w": w, "lit": dec}})
+	}
+}
+
+// randomLiteral returns a width and a literal of a value representable in it.
+// Only text is produced here: hexadecimal digits are drawn directly; decimal
+// text comes from math/big (judged by TLC up to maxDecDigits digits).
+func randomLiteral(rng *rand.Rand) (int, string) {
+	var w int
+	switch rng.Intn(6) {
+	case 0:
+		w = 1 + rng.Intn(16)
+	case 1:
+		w = []int{1, 7, 8, 9, 15, 16, 17, 31, 32, 33, 63, 64, 65, 127, 128, 129, 255, 256, 257, 1024, 4096}[rng.Intn(21)]
+	case 2:
+		w = 1 + rng.Intn(128)
+	case 3:
+		w = 1 + rng.Intn(1100)
+	default:
+		w = 1 + rng.Intn(4096)
+	}
+	// a bit pattern of at most w bits as hex digits
+	nd := (w + 3) / 4
+	digits := make([]byte, nd)
+	const hx = "0123456789ABCDEF"
+	switch rng.Intn(6) {
+	case 0: // uniform
+		for i := range digits {
+			digits[i] = hx[rng.Intn(16)]
+		}
+	case 1: // two-digit pattern (printer's hex branch)
+		a, b := hx[rng.Intn(16)], hx[rng.Intn(16)]
+		cut := rng.Intn(nd + 1)
+		for i := range digits {
+			if i < cut {
+				digits[i] = a
+			} else {
+				digits[i] = b
+			}
+		}
+	case 2: // sparse
+		for i := range digits {
+			digits[i] = '0'
+		}
+		for k := 0; k < 1+rng.Intn(3); k++ {
+			digits[rng.Intn(nd)] = hx[1<<uint(rng.Intn(4))]
+		}
+	case 3: // dense
+		for i := range digits {
+			digits[i] = 'F'
+		}
+		for k := 0; k < rng.Intn(3); k++ {
+			digits[rng.Intn(nd)] = hx[rng.Intn(16)]
+		}
+	case 4: // short value in a wide type
+		for i := range digits {
+			digits[i] = '0'
+		}
+		for i := nd - 1 - rng.Intn(minInt(nd, 17)); i < nd; i++ {
+			if i >= 0 {
+				digits[i] = hx[rng.Intn(16)]
+			}
+		}
+	default: // periodic
+		p := 1 + rng.Intn(4)
+		pat := make([]byte, p)
+		for i := range pat {
+			pat[i] = hx[rng.Intn(16)]
+		}
+		for i := range digits {
+			digits[i] = pat[i%p]
+		}
+	}
+	// clear the bits above w in the leading digit
+	if r := w % 4; r != 0 {
+		v := strings.IndexByte(hx, digits[0]) & (1<<uint(r) - 1)
+		digits[0] = hx[v]
+	}
+	pattern := string(digits)
+	// strip to a random amount of leading zeros
+	stripped := strings.TrimLeft(pattern, "0")
+	if stripped == "" {
+		stripped = "0"
+	}
+	mag, _ := new(big.Int).SetString(pattern, 16)
+	topSet := mag.Bit(w-1) == 1
+	lower := func(s string) string {
+		if rng.Intn(4) == 0 {
+			return strings.ToLower(s)
+		}
+		return s
+	}
+	zeros := func() string { return strings.Repeat("0", rng.Intn(3)) }
+	switch rng.Intn(5) {
+	case 0:
+		return w, "u0x" + zeros() + lower(stripped)
+	case 1:
+		// two's complement at the type width: any pattern below 2^w is a literal of the signed range
+		if rng.Intn(2) == 0 {
+			return w, "s0x" + lower(pattern)
+		}
+		return w, "s0x" + zeros() + lower(stripped)
+	case 2:
+		return w, zeros() + mag.Text(10)
+	case 3:
+		// negative decimal: magnitude at most 2^(w-1)
+		if topSet {
+			m := new(big.Int).SetBit(new(big.Int).Set(mag), w-1, 0)
+			if m.Sign() == 0 || rng.Intn(8) == 0 {
+				m = new(big.Int).Lsh(big.NewInt(1), uint(w-1)) // the minimum
+			}
+			return w, "-" + zeros() + m.Text(10)
+		}
+		return w, "-" + zeros() + mag.Text(10)
+	default:
+		if w == 1 {
+			if mag.Sign() == 0 {
+				return w, "false"
+			}
+			return w, "true"
+		}
+		return w, mag.Text(10)
+	}
+}
+
+func minInt(a, b int) int {
+	if a < b {
+		return a
+	}
+	return b
+}
+
+func runReplay(c *checker, path string) {
+	type rf struct {
+		Failures []struct {
+			Case map[string]interface{} `json:"case"`
+		} `json:"failures"`
+	}
+	var one rf
+	if e := mbt.ReadJSON(path, &one); e != nil {
+		mbt.Infra("replay %s: %v", path, e)
+	}
+	for _, f := range one.Failures {
+		wf, _ := f.Case["w"].(float64)
+		w := int(wf)
+		if w < 1 {
+			continue
+		}
+		switch f.Case["kind"] {
+		case "parse":
+			lit, _ := f.Case["lit"].(string)
+			c.rep.Count(fmt.Sprintf("parse:%d|%s", w, lit), true)
+			c.cycle(w, lit, "replay")
+		case "print":
+			xs, _ := f.Case["x"].(string)
+			x, ok := new(big.Int).SetString(xs, 16)
+			if !ok {
+				mbt.Infra("replay %s: bad value %q", path, xs)
+			}
+			c.rep.Count(fmt.Sprintf("print:%d|%s", w, xs), true)
+			c.roundTrip(w, x, "replay")
+		}
+	}
+	c.judge("replay")
+}
